@@ -270,7 +270,8 @@ def raise (v : Vm) : Vm :=
   if v.onErr && !v.inErr then
     applyEv { v with errResume := some v.pc, errDirect := false, inErr := true } .errTrap
   else
-    applyEv { v with inErr := false, halted := true } .endProg
+    -- not trapped: `error_handle_mode = False; error_resume = None; set_pointer(False)`
+    applyEv { v with inErr := false, errResume := none, errDirect := false, halted := true } .endProg
 
 def raiseTo (p : Prog) (v : Vm) : Vm :=
   let w := raise v
@@ -282,7 +283,7 @@ def raiseDirect (p : Prog) (v : Vm) : Vm :=
   if v.onErr && !v.inErr then
     applyEv (applyEv { v with errResume := none, errDirect := true, inErr := true, pc := p.errStart,
                               halted := false } .errTrap) .cont
-  else { v with inErr := false }
+  else { v with inErr := false, errResume := none, errDirect := false }
 
 def next (v : Vm) : Vm := { v with pc := v.pc + 1 }
 
@@ -353,7 +354,8 @@ def tick (p : Prog) (v : Vm) (deliver : List Nat) (order : List Nat) : Vm :=
   let r := step v1.core (.dispatch order)
   let v2 := enter p r.2 { v1 with core := r.1 }
   match p.code[v2.pc]? with
-  | none => applyEv { v2 with halted := true } .endProg
+  -- end of program (with an unfinished error handler: No RESUME, untrapped, which clears `error_resume`)
+  | none => applyEv { v2 with inErr := false, errResume := none, errDirect := false, halted := true } .endProg
   | some s => exec p { v2 with lines := v2.pc :: v2.lines } s
 
 /-- one direct-mode statement: check_events, handle_basic_events (not in run mode: nothing can be
